@@ -616,7 +616,7 @@ operating system). -/
 def msgEnv (env : PEnv) (orc : EvalOracles) (path : Bytes) : Env :=
   { rx := orc.rx, command := fun _ => -1, isDir := fun _ => false, now := env.now,
     strptime := orc.strptime, zoneName := orc.zoneName, fileTime := fun _ => none,
-    dryrun := env.dryrun, path := path }
+    timeFormat := orc.timeFormat, dryrun := env.dryrun, path := path }
 
 def IsClose (c : Call) : Prop := ∃ fd, c = .close fd
 
